@@ -45,7 +45,7 @@ def _alarm(signum, frame):
 def guarded_execute(scn, case, mode):
     """execute() with a wall-clock safety net; harness exceptions are tagged, never verdicts."""
     old = signal.signal(signal.SIGALRM, _alarm)
-    signal.setitimer(signal.ITIMER_REAL, RUN_WALL_S)
+    signal.setitimer(signal.ITIMER_REAL, getattr(scn, 'WALL_S', RUN_WALL_S))
     saved = sys.stdout
     sys.stdout = _DEVNULL  # bct prints progress lines; they are not part of any verdict
     try:
@@ -96,7 +96,7 @@ def _run_block(args):
     for r in range(start, stop):
         sub = subseed(S, scn.PROP, scn.ID, r)
         try:
-            case = scn.generate(sub)
+            case = scn.generate_r(sub, r) if hasattr(scn, 'generate_r') else scn.generate(sub)
             res = guarded_execute(scn, case, 'gen')
         except Exception:
             agg['harness_errors'].append({'scn': scn.ID, 'r': r, 'sub': sub, 'tb': traceback.format_exc()[-2000:]})
